@@ -7,9 +7,10 @@ whether it raises VIOLATION."""
 import json, os, subprocess, sys, time, shutil
 
 ROOT = os.path.dirname(os.path.dirname(os.path.abspath(__file__)))
-WT = "/tmp/evalwt"
-BUILD = "/tmp/evalwt-build"
-CT = "/tmp/evalwt-ctest"
+SLOT = os.environ.get("SEEDEVAL_SLOT", "")            # a second evaluation may run in its own scratch worktree
+WT = "/tmp/evalwt" + SLOT
+BUILD = "/tmp/evalwt" + SLOT + "-build"
+CT = "/tmp/evalwt" + SLOT + "-ctest"
 
 
 def sh(cmd, **kw):
@@ -33,7 +34,7 @@ def main():
     d = os.path.join(ROOT, "seeded", name)
     meta = json.load(open(os.path.join(d, "meta.json")))
     checks = [a for a in sys.argv[2:] if not a.startswith("--")] or [meta["property"]]
-    env = dict(os.environ, VERIF_REPO=WT, VERIF_BUILD=BUILD, VERIF_OUT="/tmp/evalwt-out")
+    env = dict(os.environ, VERIF_REPO=WT, VERIF_BUILD=BUILD, VERIF_OUT="/tmp/evalwt" + SLOT + "-out")
     res = dict(seed=name, property=meta["property"], at=time.strftime("%Y-%m-%d %H:%M"))
     # clean tree: demo must pass
     ensure_wt()
